@@ -23,10 +23,9 @@ macro_rules! implement_parse_function {
                     error.push_into(self.diagnostics);
                     Err(())
                 }
-                Ok(parse_value) => match self.diagnostics.has_errors() {
-                    false => Ok(parse_value),
-                    true => Err(()),
-                },
+                // Errors can have been reported even though parsing reached the end of the input.
+                // It's up to the caller to check for these, and to decide what it keeps of the parsed value.
+                Ok(parse_value) => Ok(parse_value),
             }
         }
     };
